@@ -112,6 +112,20 @@ func init() {
 			}
 			sc = append(sc, fmt.Sprintf("(%s, %d)", LeanStr(c), v))
 		}
+		// wsp protocol constants
+		wp := Parse("service/wsp/protocol.go")
+		var wc []string
+		for _, c := range []string{"wspProto", "prefixBody", "CmdInit", "CmdJoin", "CmdWrap", "CmdGetInfo", "CmdSwitch", "FieldSeq", "FieldChannel"} {
+			v := ""
+			if lit, ok := TopValue(wp, c).(*ast.BasicLit); ok {
+				v, _ = strconv.Unquote(lit.Value)
+			} else {
+				e.Unknown(c)
+			}
+			wc = append(wc, fmt.Sprintf("(%s, %s)", LeanStr(c), LeanStr(v)))
+		}
+		e.P("/-- service/wsp/protocol.go: protocol token, separator, commands, field names -/")
+		e.P("def wspConsts : List (String × String) := [%s]", strings.Join(wc, ", "))
 		e.P("/-- av/format/rtsp/response.go: the status codes the session uses -/")
 		e.P("def statusCodes : List (String × Nat) := [%s]", strings.Join(sc, ", "))
 	})
